@@ -92,7 +92,7 @@ def cylinder_aabb(cylinder2origin, radius, length):
     # AABB of a cylinder is the same as the AABB of its caps,
     # see https://iquilezles.org/articles/diskbbox/
     axis = cylinder2origin[:3, 2]
-    extent = 0.5 * length * np.abs(axis) + radius * np.sqrt(1.0 - axis * axis)
+    extent = 0.5 * length * np.abs(axis) + radius * _disk_extent(axis)
     return cylinder2origin[:3, 3] - extent, cylinder2origin[:3, 3] + extent
 
 
@@ -170,8 +170,19 @@ def disk_aabb(center, radius, normal):
     maxs : array, shape (3,)
         Maximum coordinates.
     """
-    e = radius * np.sqrt(1.0 - normal * normal)
+    e = radius * _disk_extent(normal)
     return center - e, center + e
+
+
+def _disk_extent(normal):
+    """Extent of a unit disk with given unit normal along each axis.
+
+    For a unit normal n this is sqrt(1 - n_i^2) = sqrt(n_j^2 + n_k^2). The
+    second form does not cancel when the normal is almost aligned with an
+    axis and cannot become NaN when a component exceeds 1 by rounding.
+    """
+    squared = normal * normal
+    return np.sqrt(np.roll(squared, 1) + np.roll(squared, 2))
 
 
 def cone_aabb(cone2origin, radius, height):
@@ -198,8 +209,7 @@ def cone_aabb(cone2origin, radius, height):
     """
     pa = cone2origin[:3, 3]
     pb = cone2origin[:3, 3] + height * cone2origin[:3, 2]
-    a = pb - pa
-    e = np.sqrt(1.0 - a * a / (height * height))
+    e = _disk_extent(cone2origin[:3, 2])
     return np.minimum(pa - e * radius, pb), np.maximum(pa + e * radius, pb)
 
 
